@@ -1,6 +1,6 @@
-(* C02 - facts about the concrete level tables (pinned = the ladder the model was written against,
-   spec = docs/spec.md:309 / docs/BNF.md:407, ladder_table = re-extracted from the C++ on every run),
-   and the refutation witnesses for the laws the pinned code does not satisfy. *)
+(* C02 - facts about the concrete level tables (spec = docs/spec.md:309 / docs/BNF.md:407 = pinned, the
+   ladder the model is written against since fix 4d0a4b7; old_table = the ladder before it), the
+   former refutation witnesses turned positive, and the one law the code still does not satisfy. *)
 From Coq Require Import List Arith Lia Bool NArith ZArith String.
 From Cb Require Import C02.Model C02.Mono C02.Rules C02.Roundtrip C02.Theorems.
 Import ListNotations.
@@ -11,9 +11,13 @@ Lemma spec_total_l : table_total spec_table = true.
 Proof. vm_compute. reflexivity. Qed.
 
 (* nothing here mentions the generated Gen_LadderTable.v: the theorems about ladder_table are closed in
-   Properties_C02.v by conversion (ladder_table unfolds to pinned_table as long as the C++ is unchanged),
+   Properties_C02.v by conversion (ladder_table unfolds to spec_table as long as the C++ is unchanged),
    so that a changed table breaks a NAMED obligation there and nothing else *)
-Lemma pinned_is_not_spec_l : pinned_table <> spec_table.
+Lemma pinned_is_spec_l : pinned_table = spec_table.
+Proof. reflexivity. Qed.
+
+(* the ladder before fix 4d0a4b7 was not the documented one *)
+Lemma old_is_not_spec_l : old_table <> spec_table.
 Proof. intros H. discriminate H. Qed.
 
 Definition is_eq (o : binop) : bool := match o with EqO | NeO => true | _ => false end.
@@ -22,87 +26,71 @@ Definition is_rel (o : binop) : bool := match o with LtO | LeO | GtO | GeO => tr
 Lemma in_all_binops o : In o all_binops.
 Proof. destruct o; cbn; tauto. Qed.
 
-(* the two tables order every pair of operators alike, except an equality against a relational one *)
-Lemma tables_differ_only_eq_rel_l : forall o1 o2,
-  Nat.compare (lvl pinned_table o1) (lvl pinned_table o2) = Nat.compare (lvl spec_table o1) (lvl spec_table o2)
-  \/ (is_eq o1 = true /\ is_rel o2 = true) \/ (is_rel o1 = true /\ is_eq o2 = true).
+(* printing by the documented table round-trips through the documented table (= the code's ladder) *)
+Lemma conforms_l : forall e rest, wf e = true -> folb spec_table 0 rest = true ->
+  safeb (pr spec_table 0 e ++ rest) = true ->
+  exists fuel, p_assign spec_table fuel (pr spec_table 0 e ++ rest) = Ok (strip e, rest).
+Proof. intros e rest Hw Hf Hs. apply roundtrip_general_l; auto using spec_total_l. Qed.
+
+(* former finding C02-eq-rel-same-level, now positive: every equality operator binds looser than every
+   relational operator, on either side; the former witness 3 == 3 > 0 is 3 == (3 > 0) = 0 *)
+Lemma spec_grouping_l : forall oe orl x y z, is_eq oe = true -> is_rel orl = true ->
+  (exists fuel, p_assign spec_table fuel [TId x; TOp oe; TId y; TOp orl; TId z] =
+                Ok (Bin oe (Var x) (Bin orl (Var y) (Var z)), [])) /\
+  (exists fuel, p_assign spec_table fuel [TId x; TOp orl; TId y; TOp oe; TId z] =
+                Ok (Bin oe (Bin orl (Var x) (Var y)) (Var z), [])).
 Proof.
-  assert (H : forallb (fun o1 => forallb (fun o2 =>
-      match Nat.compare (lvl pinned_table o1) (lvl pinned_table o2), Nat.compare (lvl spec_table o1) (lvl spec_table o2) with
-      | Lt, Lt | Eq, Eq | Gt, Gt => true
-      | _, _ => (is_eq o1 && is_rel o2) || (is_rel o1 && is_eq o2)
-      end) all_binops) all_binops = true) by (vm_compute; reflexivity).
-  intros o1 o2. rewrite forallb_forall in H. specialize (H o1 (in_all_binops o1)).
-  rewrite forallb_forall in H. specialize (H o2 (in_all_binops o2)).
-  destruct (Nat.compare (lvl pinned_table o1) (lvl pinned_table o2)),
-           (Nat.compare (lvl spec_table o1) (lvl spec_table o2)); auto;
-    apply orb_true_iff in H; destruct H as [H|H]; apply andb_true_iff in H; tauto.
+  intros oe orl x y z He Hr. apply higher_level_binds_tighter_l; [exact spec_total_l|].
+  destruct oe; try discriminate He; destruct orl; try discriminate Hr; vm_compute; lia.
 Qed.
 
-(* if (after a repair) the ladder is the documented table, printing by the DOCUMENTED table
-   round-trips through the code's ladder *)
-Lemma conforms_if_is_spec_l : forall lt : table, lt = spec_table ->
-  forall e rest, wf e = true -> folb spec_table 0 rest = true ->
-  safeb false (pr spec_table 0 e ++ rest) = true ->
-  exists fuel, p_assign lt fuel (pr spec_table 0 e ++ rest) = Ok (strip e, rest).
-Proof.
-  intros lt -> e rest Hw Hf Hs. apply roundtrip_general_l; auto using spec_total_l.
-Qed.
+Lemma spec_witness_l :
+  parse spec_table [TNum 3; TOp EqO; TNum 3; TOp GtO; TNum 0] =
+    Ok (Bin EqO (Num 3) (Bin GtO (Num 3) (Num 0)), []) /\
+  eval (fun _ => 0%Z) (Bin EqO (Num 3) (Bin GtO (Num 3) (Num 0))) = Some 0%Z /\
+  parse old_table [TNum 3; TOp EqO; TNum 3; TOp GtO; TNum 0] =
+    Ok (Bin GtO (Bin EqO (Num 3) (Num 3)) (Num 0), []).
+Proof. repeat split. Qed.
 
-(* finding C02-eq-rel-same-level: 3 == 3 > 0 is 3 == (3 > 0) = 0 by the documented table, the
-   ladder parses (3 == 3) > 0 = 1 *)
-Lemma spec_grouping_refuted_l :
-  exists e, wf e = true /\ nopar e = true /\
-    pr spec_table 0 e = [TNum 3; TOp EqO; TNum 3; TOp GtO; TNum 0] /\
-    exists e', parse pinned_table (pr spec_table 0 e) = Ok (e', []) /\ e' <> e /\
-      eval (fun _ => 0%Z) e = Some 0%Z /\ eval (fun _ => 0%Z) e' = Some 1%Z.
-Proof.
-  exists (Bin EqO (Num 3) (Bin GtO (Num 3) (Num 0))). repeat split.
-  exists (Bin GtO (Bin EqO (Num 3) (Num 3)) (Num 0)). repeat split.
-  intros H; discriminate H.
-Qed.
-
-(* finding C02-paren-ident-cast: a redundant pair of parentheses around an identifier (or an
-   element x[1]) is taken for a cast *)
-Lemma redundant_parens_refuted_l :
-  exists e e', wf e = true /\ wf e' = true /\ strip e = strip e' /\
-    pr pinned_table 0 e' = [TLP; TId 0; TRP; TOp Sub; TNum 1] /\
-    parse pinned_table (pr pinned_table 0 e) = Ok (strip e, []) /\
-    parse pinned_table (pr pinned_table 0 e') = Ok (Cast [TId 0] (Un Neg (Num 1)), []) /\
-    safeb false (pr pinned_table 0 e') = false.
-Proof.
-  exists (Bin Sub (Var 0) (Num 1)), (Bin Sub (Par (Var 0)) (Num 1)). repeat split.
-Qed.
-
-Lemma paren_element_cast_refuted_l :
+(* former finding C02-paren-ident-cast, now positive: the former witnesses (a) - 1 and (a[1]) - 1 *)
+Lemma paren_identifier_l :
+  parse pinned_table (pr pinned_table 0 (Bin Sub (Par (Var 0)) (Num 1))) = Ok (Bin Sub (Var 0) (Num 1), []) /\
+  pr pinned_table 0 (Bin Sub (Par (Var 0)) (Num 1)) = [TLP; TId 0; TRP; TOp Sub; TNum 1] /\
   parse pinned_table [TLP; TId 0; TLB; TNum 1; TRB; TRP; TOp Sub; TNum 1] =
-    Ok (Cast [TId 0; TLB; TNum 1; TRB] (Un Neg (Num 1)), []) /\
-  pr pinned_table 0 (Bin Sub (Par (Idx (Var 0) (Num 1))) (Num 1)) =
-    [TLP; TId 0; TLB; TNum 1; TRB; TRP; TOp Sub; TNum 1].
-Proof. split; reflexivity. Qed.
+    Ok (Bin Sub (Idx (Var 0) (Num 1)) (Num 1), []) /\
+  parse pinned_table [TLP; TLP; TId 0; TRP; TOp Mul; TNum 2; TRP] = Ok (Bin Mul (Var 0) (Num 2), []).
+Proof. repeat split. Qed.
 
-(* findings #37/#38 (C02-generic-lookahead): a < b > (c & d), minimal parentheses, no explicit
+(* C02-generic-lookahead, the part that is still there: a < b > (c & d), minimal parentheses, no explicit
    pair, is taken for the generic call a<b>(c & d) *)
 Lemma roundtrip_min_refuted_generic_l :
   exists e, wf e = true /\ nopar e = true /\
     pr pinned_table 0 e = [TId 0; TOp LtO; TId 1; TOp GtO; TLP; TId 2; TOp BAnd; TId 3; TRP] /\
     parse pinned_table (pr pinned_table 0 e) = Ok (Generic 1 (Call 0 [Bin BAnd (Var 2) (Var 3)]), []) /\
-    safeb false (pr pinned_table 0 e) = false.
+    safeb (pr pinned_table 0 e) = false.
 Proof.
   exists (Bin GtO (Bin LtO (Var 0) (Var 1)) (Bin BAnd (Var 2) (Var 3))). repeat split.
 Qed.
+
+(* ... while the look-ahead now gives up at ; ( ) { } = + - && ||: a < b + 1 > (c) and a statement
+   boundary are comparisons again *)
+Lemma generic_lookahead_bounded_l :
+  parse pinned_table [TId 0; TOp LtO; TId 1; TOp Add; TNum 1; TOp GtO; TLP; TId 2; TRP] =
+    Ok (Bin GtO (Bin LtO (Var 0) (Bin Add (Var 1) (Num 1))) (Var 2), []) /\
+  generic_scan 1 [TId 1; TRP; TSemi; TOther; TLP; TId 1; TOp GtO; TLP; TId 0; TRP] = false.
+Proof. split; reflexivity. Qed.
 
 (* hypotheses of the round trip are satisfiable, and the fuel of [parse] is enough, on a stream
    that exercises every construct *)
 Definition sample : expr :=
   Asg (Some Add) (Idx (Var 0) (Bin Add (Var 1) (Num 1)))
-      (Tern (Bin Or (Bin LtO (Var 2) (Num 3)) (Un Not (Var 3)))
+      (Tern (Bin Or (Bin LtO (Par (Var 2)) (Num 3)) (Un Not (Var 3)))
             (Bin Mul (Par (Bin Sub (Var 0) (Un Neg (Post true (Var 1))))) (Call 5 [Var 2; Bin Shl (Num 1) (Num 2)]))
-            (Tern (Var 1) (Mem (Arrow (Var 4) 10) 11) (Pre false (Idx (Var 0) (Num 0))))).
+            (Tern (Bin EqO (Var 1) (Bin GeO (Var 2) (Var 3))) (Mem (Arrow (Var 4) 10) 11) (Pre false (Par (Idx (Var 0) (Num 0)))))).
 
 Lemma sample_roundtrip_l :
   wf sample = true /\ folb pinned_table 0 [TRP; TSemi] = true /\
-  safeb false (pr pinned_table 0 sample ++ [TRP; TSemi]) = true /\
+  safeb (pr pinned_table 0 sample ++ [TRP; TSemi]) = true /\
   parse pinned_table (pr pinned_table 0 sample ++ [TRP; TSemi]) = Ok (strip sample, [TRP; TSemi]) /\
   parse pinned_table (pr pinned_table 0 (full sample) ++ [TRP; TSemi]) = Ok (strip sample, [TRP; TSemi]).
 Proof. repeat split. Qed.
@@ -127,7 +115,8 @@ Definition list_string_eqb (a b : list string) : bool :=
    with parseTernary; assignment is parseTernary = parseAssignment; prefix operators recurse into
    parseUnary, ++/-- and the fall-through use parsePostfix *)
 Definition structure_ok (shape : list (string * string * string * string)) (ternary : list string)
-    (entry : string) (assign unary_prefix unary_calls : list string) (t : table) : bool :=
+    (entry : string) (assign unary_prefix unary_calls generic_stops : list string) (cast_guard : bool)
+    (t : table) : bool :=
   chain_ok shape &&
   match shape, ternary with
   | (fn, _, _, _) :: _, [c; th; el] => String.eqb fn c && String.eqb th "parseTernary" && String.eqb el "parseTernary"
@@ -137,4 +126,7 @@ Definition structure_ok (shape : list (string * string * string * string)) (tern
   list_string_eqb assign ["parseTernary"; "parseAssignment"] &&
   list_string_eqb unary_prefix ["TOK_BIT_AND"; "TOK_BIT_NOT"; "TOK_MINUS"; "TOK_MUL"; "TOK_NOT"] &&
   list_string_eqb unary_calls ["parseUnary"; "parsePostfix"; "parsePostfix"] &&
+  list_string_eqb generic_stops ["TOK_AND"; "TOK_ASSIGN"; "TOK_LBRACE"; "TOK_LPAREN"; "TOK_MINUS"; "TOK_OR";
+                                  "TOK_PLUS"; "TOK_RBRACE"; "TOK_RPAREN"; "TOK_SEMICOLON"] &&
+  cast_guard &&
   (List.length shape =? List.length t)%nat.
